@@ -258,6 +258,8 @@ func exec(op string) vlib.Res {
 		return execResponse(a)
 	case "l3zone":
 		return execL3Zone(a)
+	case "l3shed":
+		return execL3Shed(a)
 	}
 	if fc == nil {
 		return vlib.Res{Impl: "nocache"}
